@@ -25,7 +25,7 @@ func init() {
 				"arguments. With R1-R4, for every device: delivered + held = recorded, by induction over the critical sections (each " +
 				"either adds one to held, moves held to in-flight, delivers in-flight, or adds in-flight back to held).",
 			NotCovered: "the induction over interleavings itself is a paper argument, not mechanised; the uploader's own behaviour.",
-			Rules: map[string]string{"C16-R23": "dnssvc.newDeviceFinder gives every server of a group with profiles a real device finder (table shared with C03-R23): devices recognised by address or EDNS option are billed also when the group has no device domains", "C16-R22": "the device ID in an EDNS option is found whatever other options precede or follow it (shared with C03-R11): the query is billed to the device it names, not to the owner of the client's address", "C16-R21": "a query is attributed to the device its own identifier names: on DoH the URL path and credentials come before the TLS server name, on plain DNS the dedicated address before the linked IP (tables shared with C03-R11 and C03-R1)", "C16-R20": "a query whose answer was written is recorded: in mainmw.Wrap every path from the success edge of the final WriteMsg to a return passes recordQueryInfo (nothing else, a look at the context for instance, can end the request in between)", "C16-R19": "pooled per-request state is fully re-initialised (request info, filtering context; shared with C07-R1): a query is not billed to the device of the request that used the object before, and a debug flag of an earlier query does not make later ones skip billing", "C16-R18": "initGRPCMetrics creates the backend gRPC metrics whenever profiles (and so the billing uploader) are enabled (table shared with C20-R19)", "C16-R17": "geoip.ipToCacheKey returns keys of different types for IPv4 (/24) and IPv6 (/56) networks, so the two families never share a cache entry", "C16-R15": "geoip.File.Refresh clears its caches after installing the new databases, so billing records do not keep the previous database's country and ASN (shared with C05-R10)", "C16-R16": "every transport samples the request's start time after the message has been read", "C16-RC": "class rules (error chains, shadowed results, character classes, crossed arguments, pool constructors, array pools, loop completeness, loop-carried buffers, replacing setters, complete clones, Grow arithmetic, pooled-buffer escape, sorted searches, fresh decode targets, per-iteration objects, whole-message copies, codec guards) over the packages this property rests on", "C16-R14": "the error-class enums declared in backendpb and in metrics agree, and the metrics switches (panicking default) have a case for each value", "C16-R13": "request information attached to a context inside an accept/stream loop is allocated in that iteration; pool constructors build fresh objects", "C16-R12": "the periodic worker that uploads billing records, incl. the final upload on shutdown before the worker stops (shared rule, see C13-R11)", "C16-R11": "a request is served and billed once; the billed location is the one of the client's own address (tables shared with C09-R1 and C05-R5)", "C16-R1": "records only under mu", "C16-R2": "Refresh: upload what was reset, remerge iff failed",
+			Rules: map[string]string{"C16-R24": "a lookup by human-readable ID re-checks that the device still belongs to the profile of the key (shared with C14-R15): a query under the old profile's ID is not billed to the device after it moved to another profile", "C16-R23": "dnssvc.newDeviceFinder gives every server of a group with profiles a real device finder (table shared with C03-R23): devices recognised by address or EDNS option are billed also when the group has no device domains", "C16-R22": "the device ID in an EDNS option is found whatever other options precede or follow it (shared with C03-R11): the query is billed to the device it names, not to the owner of the client's address", "C16-R21": "a query is attributed to the device its own identifier names: on DoH the URL path and credentials come before the TLS server name, on plain DNS the dedicated address before the linked IP (tables shared with C03-R11 and C03-R1)", "C16-R20": "a query whose answer was written is recorded: in mainmw.Wrap every path from the success edge of the final WriteMsg to a return passes recordQueryInfo (nothing else, a look at the context for instance, can end the request in between)", "C16-R19": "pooled per-request state is fully re-initialised (request info, filtering context; shared with C07-R1): a query is not billed to the device of the request that used the object before, and a debug flag of an earlier query does not make later ones skip billing", "C16-R18": "initGRPCMetrics creates the backend gRPC metrics whenever profiles (and so the billing uploader) are enabled (table shared with C20-R19)", "C16-R17": "geoip.ipToCacheKey returns keys of different types for IPv4 (/24) and IPv6 (/56) networks, so the two families never share a cache entry", "C16-R15": "geoip.File.Refresh clears its caches after installing the new databases, so billing records do not keep the previous database's country and ASN (shared with C05-R10)", "C16-R16": "every transport samples the request's start time after the message has been read", "C16-RC": "class rules (error chains, shadowed results, character classes, crossed arguments, pool constructors, array pools, loop completeness, loop-carried buffers, replacing setters, complete clones, Grow arithmetic, pooled-buffer escape, sorted searches, fresh decode targets, per-iteration objects, whole-message copies, codec guards) over the packages this property rests on", "C16-R14": "the error-class enums declared in backendpb and in metrics agree, and the metrics switches (panicking default) have a case for each value", "C16-R13": "request information attached to a context inside an accept/stream loop is allocated in that iteration; pool constructors build fresh objects", "C16-R12": "the periodic worker that uploads billing records, incl. the final upload on shutdown before the worker stops (shared rule, see C13-R11)", "C16-R11": "a request is served and billed once; the billed location is the one of the client's own address (tables shared with C09-R1 and C05-R5)", "C16-R1": "records only under mu", "C16-R2": "Refresh: upload what was reset, remerge iff failed",
 				"C16-R3": "remerge: insert or add counts", "C16-R4": "Record: new=1, existing+1, metadata from arguments",
 				"C16-R6": "resetRecords hands out the old map and installs a fresh one on every path; recordToProtobuf copies count, device, country, ASN, protocol and time unchanged",
 				"C16-R8": "wiring: the recorder installed for the request path is the one the refresh worker flushes; that worker flushes once more on shutdown and is registered with the signal handler",
@@ -34,6 +34,8 @@ func init() {
 }
 
 func runC16(c *an.Ctx) {
+	c.Floor("C16-R24", 1)
+	c.Borrow("C16-R24", runC14, func(o an.Obligation) bool { return o.Rule == "C14-R15" })
 	c.Floor("C16-R23", 1)
 	c.Borrow("C16-R23", runC03, func(o an.Obligation) bool { return o.Rule == "C03-R23" })
 	c.Floor("C16-R22", 1)
